@@ -485,6 +485,146 @@ def _collected_then_sorted(b, ln):
     return False
 
 
+ONE_TO_ONE = ("iter", "into_iter", "map", "collect", "cloned", "copied", "to_vec", "clone", "to_owned", "as_slice",
+              "as_ref", "iter_mut", "enumerate", "rev")
+LOSSY = ("filter", "filter_map", "take", "skip", "dedup", "take_while", "skip_while", "step_by", "truncate", "retain",
+         "find", "first", "last", "nth", "pop", "drain", "chunks")
+
+
+def _derived(body, is_source):
+    """ids of locals whose value derives from a source call through let-bindings"""
+    D = set()
+    changed = True
+    while changed:
+        changed = False
+        for n in walk(body):
+            if n.get("k") in ("let", "letx") and n.get("init") is not None and n.get("pat", {}).get("k") == "bind":
+                if n["pat"]["id"] in D:
+                    continue
+                if any(is_source(x) or (x.get("k") == "local" and x.get("id") in D) for x in walk(n["init"])):
+                    D.add(n["pat"]["id"])
+                    changed = True
+    return D
+
+
+def _exits(n, conds, out):
+    """(expr, enclosing conditions as (cond node, polarity)) for every value a function body can yield"""
+    if not isinstance(n, dict):
+        return
+    k = n.get("k")
+    if k == "block":
+        for st in n.get("stmts") or []:
+            _rets(st, conds, out)
+        if n.get("expr") is not None:
+            _exits(n["expr"], conds, out)
+        return
+    if k == "if":
+        _rets(n.get("cond"), conds, out)
+        _exits(n.get("then"), conds + [(n.get("cond"), True)], out)
+        if n.get("else") is not None:
+            _exits(n["else"], conds + [(n.get("cond"), False)], out)
+        return
+    if k == "match":
+        for a in n.get("arms") or []:
+            _exits(a.get("body"), conds + [(n, None)], out)
+        return
+    if k == "ret":
+        if n.get("e") is not None:
+            _exits(n["e"], conds, out)
+        return
+    out.append((n, conds))
+
+
+def _rets(n, conds, out):
+    """returns nested inside statements"""
+    if isinstance(n, list):
+        for x in n:
+            _rets(x, conds, out)
+        return
+    if not isinstance(n, dict):
+        return
+    k = n.get("k")
+    if k == "ret":
+        if n.get("e") is not None:
+            _exits(n["e"], conds, out)
+        return
+    if k == "closure":
+        return
+    if k == "if":
+        _rets(n.get("cond"), conds, out)
+        _rets(n.get("then"), conds + [(n.get("cond"), True)], out)
+        _rets(n.get("else"), conds + [(n.get("cond"), False)], out)
+        return
+    for kk, v in n.items():
+        if kk in ("pat", "pats", "params"):
+            continue
+        if isinstance(v, (dict, list)):
+            _rets(v, conds, out)
+
+
+def _is_empty_of(e, D):
+    e = peel(e)
+    if isinstance(e, dict) and e.get("k") == "mcall" and e.get("m") == "is_empty":
+        rv = peel(e.get("recv"))
+        return isinstance(rv, dict) and rv.get("k") == "local" and rv.get("id") in D
+    return False
+
+
+def _s3_verdict(rep, F, sm):
+    src = lambda x: x.get("k") in ("call", "mcall") and (x.get("f") or "").endswith("validate_network_rules")
+    D = _derived(sm["body"], src)
+    for x in walk(sm["body"]):
+        if x.get("k") == "mcall" and x.get("m") in LOSSY:
+            root = x
+            while isinstance(root, dict) and root.get("k") == "mcall":
+                root = peel(root.get("recv"))
+            if (isinstance(root, dict) and root.get("k") == "local" and root.get("id") in D) or \
+                    any(src(y) for y in walk(x.get("recv"))):
+                rep.add(Finding("S3", sm["path"], "error-mapping",
+                                "SwiftMessage::validate filters or truncates the error list (%s)" % x["m"],
+                                sm["file"], x.get("ln")))
+    exits = []
+    _exits(sm["body"], [], exits)
+    if not exits:
+        rep.add(Finding("S3", sm["path"], "is_valid", "no result expression found", sm["file"], sm["line"]))
+    for e, conds in exits:
+        e0 = peel(e)
+        ok = False
+        why = "the result is not built from the list returned by validate_network_rules"
+        if isinstance(e0, dict) and e0.get("k") == "struct" and (e0.get("path") or e0.get("t") or "").endswith("ValidationResult"):
+            fs = {f["name"]: f["e"] for f in e0.get("fields") or []}
+            ok = _is_empty_of(fs.get("is_valid"), D) and \
+                any(x.get("k") == "local" and x.get("id") in D for x in walk(fs.get("errors")))
+            why = "is_valid is not <errors>.is_empty() of the list it returns"
+        elif isinstance(e0, dict) and e0.get("k") == "call":
+            cal = F.body_by_path.get(callee(e0))
+            a = e0.get("args") or []
+            if cal is not None and (cal.get("impl_self") or "").endswith("ValidationResult") and "body" in cal:
+                ps = [p for p in cal.get("params") or [] if p.get("k") == "bind"]
+                if len(a) == 1 and len(ps) == 1 and any(x.get("k") == "local" and x.get("id") in D for x in walk(a[0])):
+                    # constructor: { is_valid: p.is_empty(), errors: p }
+                    for st in walk(cal["body"]):
+                        if st.get("k") == "struct" and (st.get("path") or st.get("t") or "").endswith("ValidationResult"):
+                            fs = {f["name"]: f["e"] for f in st.get("fields") or []}
+                            ev = peel(fs.get("errors"))
+                            if _is_empty_of(fs.get("is_valid"), {ps[0]["id"]}) and isinstance(ev, dict) \
+                                    and ev.get("k") == "local" and ev.get("id") == ps[0]["id"]:
+                                ok = True
+                    why = "the constructor does not derive is_valid as errors.is_empty()"
+                elif not a:
+                    # ValidationResult::valid(): only where the list is known to be empty
+                    for c, pol in conds:
+                        if pol is True and _is_empty_of(c, D):
+                            ok = True
+                        if pol is False and isinstance(peel(c), dict) and peel(c).get("k") == "un" \
+                                and peel(c).get("op") == "!" and _is_empty_of(peel(c)["e"], D):
+                            ok = True
+                    why = "a fixed verdict is returned on a path where the error list is not known to be empty"
+        if not ok:
+            rep.add(Finding("S3", sm["path"], "is_valid",
+                            "SwiftMessage::validate: %s" % why, sm["file"], e.get("ln") or sm["line"]))
+
+
 def s3(rep, F):
     r = rep.rule("S3", "adapters agree: SwiftMessage::validate and the plugin call validate_network_rules "
                        "with the literal `false`, map errors one-to-one and derive validity as "
@@ -510,43 +650,42 @@ def s3(rep, F):
                                     % b["path"], b["file"], c.get("ln")))
     if n < 31:
         rep.fail_closed("S3: only %d adapter calls of validate_network_rules found (expected >= 31)" % n)
-    # validity = errors.is_empty()
+    # validity = errors.is_empty(), on every exit
     sm = F.body_by_path.get("swift_message::SwiftMessage::<T>::validate")
     if sm is None:
         rep.fail_closed("S3: SwiftMessage::validate not found")
     else:
         r["instances"] += 1
-        ok = False
-        mapped = False
-        for s in walk(sm["body"]):
-            if s.get("k") == "struct" and (s.get("path") or "").endswith("ValidationResult"):
-                for f in s["fields"]:
-                    if f["name"] == "is_valid":
-                        e = f["e"]
-                        if e.get("k") == "mcall" and e.get("m") == "is_empty" and (peel(e["recv"]).get("name") == "errors"):
-                            ok = True
-            if s.get("k") == "mcall" and s.get("m") in ("filter", "filter_map", "take", "skip", "dedup",
-                                                        "take_while", "skip_while", "step_by"):
-                mapped = True
-        if not ok:
-            rep.add(Finding("S3", sm["path"], "is_valid", "is_valid is not derived as errors.is_empty()",
-                            sm["file"], sm["line"]))
-        if mapped:
-            rep.add(Finding("S3", sm["path"], "error-mapping",
-                            "SwiftMessage::validate filters or truncates the error list", sm["file"], sm["line"]))
+        _s3_verdict(rep, F, sm)
     pv = F.body_by_path.get("plugin::validate::Validate::validate_mt_message")
     if pv is None:
         rep.fail_closed("S3: plugin validate_mt_message not found")
     else:
         r["instances"] += 1
+        # the vector that receives every validation error of the Ok arm: pushed to inside a `for` over a local
+        # derived from the plugin's validate_network_rules call
+        D = _derived(pv["body"], lambda x: x.get("k") in ("call", "mcall") and
+                     (x.get("f") or "").endswith("validate_network_rules"))
+        sinks = set()
+        for n2 in walk(pv["body"]):
+            if n2.get("k") == "for":
+                it = [x for x in walk(n2.get("iter")) if x.get("k") == "local" and x.get("id") in D]
+                if it:
+                    for x in walk(n2.get("body")):
+                        if x.get("k") == "mcall" and x.get("m") == "push":
+                            rv = peel(x.get("recv"))
+                            if isinstance(rv, dict) and rv.get("k") == "local":
+                                sinks.add(rv["id"])
         ok = False
-        for s in walk(pv["body"]):
-            if s.get("k") == "let" and s["pat"].get("name") == "is_valid":
-                e = s["init"]
-                if e.get("k") == "mcall" and e.get("m") == "is_empty" and peel(e["recv"]).get("name") == "errors":
-                    ok = True
+        for s2 in walk(pv["body"]):
+            if s2.get("k") == "let" and s2.get("init") is not None:
+                e = peel(s2["init"])
+                if isinstance(e, dict) and e.get("k") == "mcall" and e.get("m") == "is_empty":
+                    rv = peel(e.get("recv"))
+                    if isinstance(rv, dict) and rv.get("k") == "local" and rv.get("id") in sinks:
+                        ok = True
         if not ok:
-            rep.add(Finding("S3", pv["path"], "is_valid", "plugin verdict is not errors.is_empty()",
+            rep.add(Finding("S3", pv["path"], "is_valid", "plugin verdict is not <collected errors>.is_empty()",
                             pv["file"], pv["line"]))
     # wrapper: each arm calls SwiftMessage::validate on its payload
     wv = F.body_by_path.get("parsed_message::ParsedSwiftMessage::validate")
